@@ -177,6 +177,43 @@ func shimSelftestImpl() (string, int64) {
 			}
 		}, "none"},
 	}
+	// a worker goroutine that the code starts and parks for ever is not a deadlock once every body has returned
+	progs = append(progs, prog{"parked daemon worker", func() ([]func() any, func(*sched.Exec) string) {
+		var mu vsync.Mutex
+		cond := vsync.NewCond(&mu)
+		body := func() any {
+			vsync.Go(func() { mu.Lock(); cond.Wait(); mu.Unlock() })
+			mu.Lock()
+			mu.Unlock()
+			return "done"
+		}
+		return []func() any{body, body}, func(x *sched.Exec) string {
+			if x.Results[0] != "done" || x.Results[1] != "done" {
+				return "body did not finish"
+			}
+			return ""
+		}
+	}, "none"})
+	// a thread that spins on an atomic flag exhausts the decision budget: abandoned, not judged
+	{
+		saved := sched.MaxPoints
+		sched.MaxPoints = 3000
+		var flag vatomic.Bool
+		spin := func() any {
+			for !flag.Load() {
+			}
+			return nil
+		}
+		set := func() any { flag.Store(true); return nil }
+		x, err := sched.Run([]func() any{spin, set}, nil, 10*time.Second)
+		flag.Store(true) // release the abandoned spinner
+		sched.MaxPoints = saved
+		sched.Tainted = false
+		if err != nil || !x.Hung || x.Deadlock != "" {
+			return fmt.Sprintf("spinning thread: expected the execution to be abandoned on its decision budget, got err=%v hung=%v deadlock=%q after %d decisions", err, x.Hung, x.Deadlock, len(x.Points)), total
+		}
+		total++
+	}
 	for _, p := range progs {
 		var oracle func(*sched.Exec) string
 		mk := func() []func() any {
